@@ -407,7 +407,7 @@ pub fn type_prelude(gen: &mut Gen, cs: &mut Cs, out: &mut Vec<Plan>, supported_o
         } else {
             widths_bad[cs.below(widths_bad.len())]
         };
-        let rid = gen.fresh();
+        let rid = gen.fresh_cs(cs);
         let p = if is_int {
             let sign = match cs.below(8) {
                 0..=3 => 0,
